@@ -190,6 +190,7 @@ def h03a_session(c1: int, c2: int, t0: int, t1: int, t2: int, blob: bytes) -> bo
     kind = shard_int("KIND", 0)
     ctl = shard_ints("CTL", "2,1,3")
     pll = shard_ints("PL", "1,0,2")
+    full = shard_int("FULL", 1 if shard_int("CUTS", 1) == 1 else 0) == 1
     lo_cut = shard_int("CLO", 0)
     hi_cut = shard_int("CHI", 1 << 30)
     name, expected_name, accept = _names(sname, expect)
@@ -234,11 +235,12 @@ def h03a_session(c1: int, c2: int, t0: int, t1: int, t2: int, blob: bytes) -> bo
     for f in frames:
         pos += len(f)
         ends.append(pos)
-    cands = [p for p in _session_cuts(n, [he, hs_end] + ends, ncuts == 1) if lo_cut <= p <= hi_cut or p == n]
-    x = cands[concretize(c1, len(cands) - 1)]
+    allc = _session_cuts(n, [he, hs_end] + ends, full)
+    xs = [p for p in allc if lo_cut <= p <= hi_cut]  # shard: range of the first cut (n = not cut at all)
+    x = xs[concretize(c1, len(xs) - 1)]
     bounds = [0, x]
     if ncuts >= 2 and x < n:
-        rest = [p for p in cands if p > x]
+        rest = [p for p in allc if p > x]
         y = rest[concretize(c2, len(rest) - 1)]
         bounds.append(y)
     if bounds[-1] != n:
@@ -341,10 +343,14 @@ def shards(tier: str) -> list:
                     "desc": f"framing step with chunk type {'bytearray' if k == 1 else 'memoryview'}"})
     # H03a
     cfgs = [(sn, ex) for sn in (0, 1, 2) for ex in (0, 1, 2)]
+    ranges = [(1, 15), (16, 32), (33, 50), (51, 9999)]
     if quick:
         for sn, ex in cfgs:
             out.append({"fn": "h03a_session", "env": {"PSK": (sn + ex) % 2, "SNAME": sn, "EXPECT": ex, "M": 2, "CUTS": 1}, "cond_timeout": 400,
                         "desc": f"session vs reference responder, ideal AEAD data phase (symbolic type/payload/ciphertext bytes), name cfg {sn}/{ex}, 1 cut anywhere"})
+        for sn, ex in ((1, 1), (2, 2)):
+            out.append({"fn": "h03a_session", "env": {"PSK": 1, "SNAME": sn, "EXPECT": ex, "M": 2, "CUTS": 2}, "cond_timeout": 600,
+                        "desc": f"session, ideal AEAD data phase, name cfg {sn}/{ex}, 2 cuts around every frame boundary"})
         for psk in (0, 1):
             out.append({"fn": "h03a_session", "env": {"PSK": psk, "SNAME": 1, "EXPECT": 1, "M": 2, "CUTS": 1, "REAL": 1, "KIND": psk + 1}, "cond_timeout": 400,
                         "desc": f"session vs reference responder with the real cipher end to end (key {psk}), 1 cut anywhere"})
@@ -355,26 +361,41 @@ def shards(tier: str) -> list:
                             "desc": f"session, ideal AEAD data phase, key {psk}, name cfg {sn}/{ex}, 3 messages, 1 cut anywhere"})
             out.append({"fn": "h03a_session", "env": {"PSK": 0, "SNAME": sn, "EXPECT": ex, "M": 2, "CUTS": 2}, "cond_timeout": 900,
                         "desc": f"session, ideal AEAD data phase, name cfg {sn}/{ex}, 2 cuts around every frame boundary"})
+        for sn, ex in ((1, 1), (0, 0), (1, 2)):
+            for lo, hi in ranges:
+                out.append({"fn": "h03a_session", "env": {"PSK": 1, "SNAME": sn, "EXPECT": ex, "M": 2, "CUTS": 2, "FULL": 1, "CLO": lo, "CHI": hi}, "cond_timeout": 1200,
+                            "desc": f"session, ideal AEAD data phase, name cfg {sn}/{ex}, every pair of cut positions with the first cut in [{lo},{hi}]"})
         for psk in (0, 1):
             for k in (0, 1, 2):
                 out.append({"fn": "h03a_session", "env": {"PSK": psk, "SNAME": 1, "EXPECT": 1, "M": 3, "CUTS": 1, "REAL": 1, "KIND": k}, "cond_timeout": 600,
                             "desc": f"session with the real cipher end to end (key {psk}, chunk type {k}), 1 cut anywhere"})
             out.append({"fn": "h03a_session", "env": {"PSK": psk, "SNAME": 1, "EXPECT": 0, "M": 2, "CUTS": 2, "REAL": 1}, "cond_timeout": 900,
                         "desc": f"session with the real cipher end to end (key {psk}), 2 cuts around every frame boundary"})
+    # H03c
+    if quick:
+        out.append({"fn": "h03c_gate", "env": {"PSK": 0, "CUTS": 1}, "cond_timeout": 400, "path_timeout": 60,
+                    "desc": "real APIConnection.finish_connection on the simulated loop, noise helper vs reference responder: nothing written/delivered before readiness, HelloRequest is the first encrypted frame (nonce 0); server opening cut at one position anywhere"})
+    else:
+        for psk in (0, 1):
+            out.append({"fn": "h03c_gate", "env": {"PSK": psk, "CUTS": 1}, "cond_timeout": 400, "path_timeout": 60,
+                        "desc": f"connection-level gating, key {psk}, server opening cut at one position anywhere"})
+        for lo, hi in ((1, 6), (7, 14), (15, 24), (25, 38), (39, 9999)):
+            out.append({"fn": "h03c_gate", "env": {"PSK": 0, "CUTS": 2, "CLO": lo, "CHI": hi}, "cond_timeout": 1200, "path_timeout": 60,
+                        "desc": f"connection-level gating, server opening cut at every pair of positions with the first cut in [{lo},{hi}]"})
     return out
 
 
 BOUNDS = {
     "quick": "framing step: symbolic state in {HELLO,HANDSHAKE,READY}, <= 3 frames per chunk, body lengths 0..3 (symbolic bytes) and 255/256/65535 (filler + 2 symbolic bytes), every cut pair (short streams) / cuts around headers and ends (long), chunk types bytes/bytearray/memoryview. "
-             "session: 2 concrete keys, server name absent/'dev'/empty x expected none/equal/different, stream hello|handshake|2 data frames cut at one position anywhere (or not at all); data phase with the ideal AEAD: message types symbolic in [0,65536), payload (0..2 bytes) and ciphertext tokens (1..3 bytes) symbolic; plus the real cipher end to end with 2 concrete messages",
-    "thorough": "as quick with all body-length pairs 0..3, 18 triples, 3 data messages, both keys for every name configuration, 2 cuts taken from the positions within -2..+4 of every frame boundary and the midpoints, real cipher with all chunk types",
+             "session: 2 concrete keys, server name absent/'dev'/empty x expected none/equal/different, stream hello|handshake|2 data frames cut at one position anywhere (or not at all), two configurations also with 2 cuts within -2..+4 of every frame boundary; data phase with the ideal AEAD: message types symbolic in [0,65536), payload (0..2 bytes) and ciphertext tokens (1..3 bytes) symbolic; plus the real cipher end to end with 2 concrete messages",
+    "thorough": "as quick with all body-length pairs 0..3, 18 triples, 3 data messages, both keys for every name configuration, 2 cuts taken from the positions within -2..+4 of every frame boundary and the midpoints for every configuration and every pair of cut positions for three configurations, real cipher with all chunk types",
 }
 OUTSIDE = [
     "'for all keys': the two keys are concrete; the framing code (h03b) never touches the key",
     "correctness of X25519 / ChaCha20-Poly1305 / SHA-256 themselves",
     "more than 3 frames completed by one chunk (covered through the per-frame loop iteration only)",
     "device names other than absent / 'dev' / empty here (symbolic names: C04 h04b_name)",
-    "gating of application traffic inside APIConnection (H03c) is not part of this module; at helper level the client writes nothing on its own after the opening",
+    "connection-level gating (h03c) uses the real cipher with one device name and login=False; message sequences beyond HelloRequest/HelloResponse belong to C05/C06",
 ]
 ASSUMPTIONS = [
     "vf/noise_ref.py (written from the Noise specification, shares no code with `noise` or the repo) is the conformant responder",
@@ -383,7 +404,118 @@ ASSUMPTIONS = [
     "representation invariant used by the inductive step: between data_received calls the buffer holds exactly the bytes since the last handled frame, no complete frame, _pos arbitrary; h03a re-establishes it end to end from a fresh helper",
     "ephemeral keys pinned (client via the library's own 'use e if set' rule), noise library entry points and struct packing run through the FFI patches of vf/plugin.py",
     "an exception escaping data_received is treated as asyncio does: transport closed, connection_lost(exc)",
+    "h03c: SimLoop = real asyncio scheduler with virtual clock and in-memory transport; stub resolver / connect (vf/scen.py)",
 ]
 EXPLANATION = ("C03: oracle = each complete frame is handed exactly once, in order, to the handler of the then-current state and the tail is retained (step); "
                "ready_future resolves exactly in the chunk holding the last handshake byte, nothing is delivered before, afterwards deliveries equal the responder's messages in order, "
                "each in the chunk holding its last byte; name accepted iff no expected name or equal, else BadNameAPIError carrying the received name, closed, nothing delivered.")
+
+
+# ------------------------------------------------------------------------------------------------
+# H03c  gating in the connection: nothing application-level is sent or delivered before readiness
+# ------------------------------------------------------------------------------------------------
+
+def h03c_gate(c1: int, c2: int) -> bool:
+    """
+    pre: 0 <= c1 and 0 <= c2
+    post: _
+    """
+    track.entered()
+    from noise.backends.default.diffie_hellmans import ED25519
+    from noise.backends.default.keypairs import KeyPair25519
+
+    from aioesphomeapi import api_pb2 as pb
+    from aioesphomeapi.connection import ConnectionState
+
+    from vf.scen import World
+
+    psk_i = shard_int("PSK", 0)
+    orig_gen = ED25519.generate_keypair
+    ED25519.generate_keypair = lambda self: KeyPair25519.from_private_bytes(H.CLIENT_EPHEMERAL)  # pinned
+    w = World(noise_psk=H.PSK_B64[psk_i], expected_name="dev")
+    try:
+        w.connect_mode = "ok"
+        log = []
+
+        class GateConn(w.ConnCls):
+            __slots__ = ()
+
+            def process_packet(self, t, d):
+                fh = self._frame_helper
+                log.append(("deliver", t, fh is not None and fh.ready_future.done() and fh.ready_future.exception() is None))
+                super().process_packet(t, d)
+
+        w.ConnCls = GateConn
+        conn = w.new_connection()
+        t1 = w.task(conn.start_connection())
+        w.loop.run_ready()
+        if not t1.done() or t1.exception() is not None:
+            return track.fail("start_connection did not complete in the stub environment")
+        t2 = w.task(conn.finish_connection(login=False))
+        w.loop.run_ready()
+        tr = w.transport
+        fh = conn._frame_helper
+        if tr is None or fh is None or len(tr.writes) != 1:
+            return track.fail("client opening not written with one write")
+        with NoTracing():
+            dev = NR.Device(H.PSKS[psk_i], b"dev")
+            try:
+                hello, hs = dev.accept(tr.writes[0][1])
+            except NR.NoiseRefError:
+                hello = None
+        if hello is None or hs[3] != 0:
+            return track.fail("client opening rejected by the reference responder")
+        S = hello + hs
+        n = len(S)
+        xs = [p for p in range(1, n + 1) if shard_int("CLO", 0) <= p <= shard_int("CHI", 1 << 30)]
+        x = xs[concretize(c1, len(xs) - 1)]  # first chunk S[:x]; x == n: one chunk
+        bounds = [0, x]
+        if x < n and shard_int("CUTS", 1) < 2:
+            bounds.append(n)
+        elif x < n:
+            y = x + 1 + concretize(c2, n - x - 1)
+            bounds.append(y)
+            if y < n:
+                bounds.append(n)
+        if track.reached():
+            return False
+        for i in range(len(bounds) - 1):
+            lo, hi = bounds[i], bounds[i + 1]
+            tr.feed(S[lo:hi])
+            w.loop.run_ready()
+            if hi < n:
+                if fh.ready_future.done():
+                    return track.fail("readiness signalled before the last handshake byte")
+                if len(tr.writes) != 1:
+                    return track.fail("the connection wrote before the handshake had completed")
+                if log:
+                    return track.fail("a message was delivered before the handshake had completed")
+        if not fh.ready_future.done() or fh.ready_future.exception() is not None:
+            return track.fail("handshake with the reference responder did not complete")
+        if log:
+            return track.fail("a message was delivered although the device sent none")
+        # now, and only now, the first application message (HelloRequest, id 1) goes out, encrypted
+        if len(tr.writes) != 2:
+            return track.fail(f"expected exactly the HelloRequest after readiness, saw {len(tr.writes) - 1} writes")
+        with NoTracing():
+            bodies = NR.split_frames(tr.writes[1][1])
+            try:
+                first = [dev.open_frame_body(b) for b in bodies] if bodies else None
+            except NR.NoiseRefError:
+                first = None
+        if not first or first[0][0] != 1:
+            return track.fail("first write after readiness is not an encrypted HelloRequest under nonce 0")
+        with NoTracing():
+            resp = dev.data_frame(2, pb.HelloResponse(api_version_major=1, api_version_minor=10, name="dev").SerializeToString())
+        tr.feed(resp)
+        w.loop.run_ready()
+        if not t2.done() or t2.exception() is not None:
+            return track.fail("finish_connection did not complete after the HelloResponse")
+        if conn.connection_state is not ConnectionState.CONNECTED:
+            return track.fail("connection not CONNECTED")
+        if [e[:2] for e in log] != [("deliver", 2)] or not log[0][2]:
+            return track.fail("HelloResponse not delivered exactly once after readiness")
+        return True
+    finally:
+        ED25519.generate_keypair = orig_gen
+        w.close()
